@@ -354,49 +354,7 @@ func checkC11(p *Prog, r *Report) {
 
 	// ---- R11.6 the nil candidate --------------------------------------------------------------
 	r.Rule("R11.6", "The nil (end-of-candidates) event has exactly one source, taken only by a live gathering cycle on its Gathering->Complete edge; the cycle reaches it only after all its gatherers were waited for; every candidate event of a gathering cycle is preceded by stamping the cycle's ufrag and guarded by the location-tracking filter.", 5)
-	nNil, nNonNil := 0, 0
-	for _, f := range p.AllFuncs {
-		for _, c := range p.CallsTo(f, false, "ice.handlerNotifier.EnqueueCandidate") {
-			if len(c.Args) == 1 && p.isNilExpr(c.Args[0]) {
-				nNil++
-				ok := f.Name == "Agent.setGatheringState$1"
-				if ok {
-					facts, _ := p.FactsAtCall(f, c)
-					live := facts.Has(func(ft Fact) bool {
-						if ft.Op != "==" || !ft.Val || !p.isNilExpr(ft.Y) {
-							return false
-						}
-						cc, ok := unparen(ft.X).(*ast.CallExpr)
-						return ok && p.CalleeName(cc) == "context.Context.Err"
-					})
-					edge := facts.Has(func(ft Fact) bool {
-						return ft.Op == "==" && !ft.Val && (p.IsField(ft.X, "Agent.gatheringState") || p.IsField(ft.Y, "Agent.gatheringState"))
-					})
-					complete := facts.Has(func(ft Fact) bool { return ft.Op == "==" && ft.Val && p.constName(ft.Y) == "GatheringStateComplete" })
-					r.Check(live && edge && complete, "nil candidate: live cycle, state edge, Complete", p.Pos(c.Pos()), "gatherCtx.Err()==nil, gatheringState != newState, newState == Complete",
-						fmt.Sprintf("the end-of-candidates event is emitted without: live cycle (%v), state actually changing (%v), target Complete (%v) — cancelled cycles or repeated calls emit extra nil candidates", live, edge, complete))
-				} else {
-					r.Fail("nil candidate source in "+f.Name, p.Pos(c.Pos()), "a second source of the end-of-candidates event")
-				}
-			} else {
-				nNonNil++
-				facts, _ := p.FactsAtCall(f, c)
-				filtered := facts.Has(func(ft Fact) bool {
-					cc, ok := unparen(ft.X).(*ast.CallExpr)
-					return ft.Op == "truth" && !ft.Val && ok && p.CalleeName(cc) == "ice.Candidate.filterForLocationTracking"
-				})
-				if f.Name == "Agent.addRemotePassiveTCPCandidate" {
-					r.Trivial("candidate event in "+f.Name, p.Pos(c.Pos()), "active-TCP candidate, not part of a gathering cycle (exempt)")
-					continue
-				}
-				stamped := p.precededBy(f, c.Pos(), func(x *ast.CallExpr) bool { return p.CalleeName(x) == "ice.Agent.setCandidateExtensions" })
-				r.Check(filtered && stamped, "candidate event in "+f.Name, p.Pos(c.Pos()), "ufrag stamped, location-tracking filter applied", fmt.Sprintf("candidate published with ufrag stamped=%v, location filter=%v", stamped, filtered))
-			}
-		}
-	}
-	if nNil != 1 {
-		r.Fail("nil candidate source", "agent.go", fmt.Sprintf("%d sources of the end-of-candidates event (expected 1)", nNil))
-	}
+	checkCandidateEventSources(p, r, true)
 	checkGatherCycleControl(p, r)
 	if f := p.Fn("Agent.gatherCandidates"); r.Anchor("Agent.gatherCandidates", f != nil) {
 		var seq []string
@@ -480,6 +438,7 @@ func checkC11(p *Prog, r *Report) {
 
 // checkGatherCycleControl: shared by C11 (R11.6) and C18 (R18.3).
 func checkGatherCycleControl(p *Prog, r *Report) {
+	checkCycleHandleWriters(p, r)
 	f := p.Fn("Agent.GatherCandidates$1")
 	if !r.Anchor("GatherCandidates task", f != nil) {
 		return
@@ -550,4 +509,54 @@ func checkGatherCycleControl(p *Prog, r *Report) {
 		r.Check(early, "addCandidate: a cancelled cycle is refused before queueing", p.Pos(ac.Body.Pos()), "ctx.Err() tested", "addCandidate no longer refuses a cancelled cycle up front")
 	}
 	r.Check(rec["cancel"] && rec["done"] && ctxOK, "GatherCandidates: cycle handle recorded", p.Pos(goStmt.Pos()), "cancel func and done channel stored; goroutine runs under the cancellable context", "the new cycle's cancel function / done channel are not recorded or the goroutine does not run under the cancellable context: Restart and Close cannot stop or await it")
+}
+
+// checkCandidateEventSources: the sources of candidate events. The nil
+// (end-of-candidates) part is shared by C11 R11.6 and C18 R18.9; the part on
+// non-nil events (ufrag stamped, location filter) is C11's only.
+func checkCandidateEventSources(p *Prog, r *Report, nonNil bool) {
+	nNil, nNonNil := 0, 0
+	for _, f := range p.AllFuncs {
+		for _, c := range p.CallsTo(f, false, "ice.handlerNotifier.EnqueueCandidate") {
+			if len(c.Args) == 1 && p.isNilExpr(c.Args[0]) {
+				nNil++
+				ok := f.Name == "Agent.setGatheringState$1"
+				if ok {
+					facts, _ := p.FactsAtCall(f, c)
+					live := facts.Has(func(ft Fact) bool {
+						if ft.Op != "==" || !ft.Val || !p.isNilExpr(ft.Y) {
+							return false
+						}
+						cc, ok := unparen(ft.X).(*ast.CallExpr)
+						return ok && p.CalleeName(cc) == "context.Context.Err"
+					})
+					edge := facts.Has(func(ft Fact) bool {
+						return ft.Op == "==" && !ft.Val && (p.IsField(ft.X, "Agent.gatheringState") || p.IsField(ft.Y, "Agent.gatheringState"))
+					})
+					complete := facts.Has(func(ft Fact) bool { return ft.Op == "==" && ft.Val && p.constName(ft.Y) == "GatheringStateComplete" })
+					r.Check(live && edge && complete, "nil candidate: live cycle, state edge, Complete", p.Pos(c.Pos()), "gatherCtx.Err()==nil, gatheringState != newState, newState == Complete",
+						fmt.Sprintf("the end-of-candidates event is emitted without: live cycle (%v), state actually changing (%v), target Complete (%v) — cancelled cycles or repeated calls emit extra nil candidates", live, edge, complete))
+				} else {
+					r.Fail("nil candidate source in "+f.Name, p.Pos(c.Pos()), "a second source of the end-of-candidates event")
+				}
+			} else if nonNil {
+				nNonNil++
+				facts, _ := p.FactsAtCall(f, c)
+				filtered := facts.Has(func(ft Fact) bool {
+					cc, ok := unparen(ft.X).(*ast.CallExpr)
+					return ft.Op == "truth" && !ft.Val && ok && p.CalleeName(cc) == "ice.Candidate.filterForLocationTracking"
+				})
+				if f.Name == "Agent.addRemotePassiveTCPCandidate" {
+					r.Trivial("candidate event in "+f.Name, p.Pos(c.Pos()), "active-TCP candidate, not part of a gathering cycle (exempt)")
+					continue
+				}
+				stamped := p.precededBy(f, c.Pos(), func(x *ast.CallExpr) bool { return p.CalleeName(x) == "ice.Agent.setCandidateExtensions" })
+				r.Check(filtered && stamped, "candidate event in "+f.Name, p.Pos(c.Pos()), "ufrag stamped, location-tracking filter applied", fmt.Sprintf("candidate published with ufrag stamped=%v, location filter=%v", stamped, filtered))
+			}
+		}
+	}
+	if nNil != 1 {
+		r.Fail("nil candidate source", "agent.go", fmt.Sprintf("%d sources of the end-of-candidates event (expected 1)", nNil))
+	}
+	_ = nNonNil
 }
